@@ -6,7 +6,7 @@ from typing import List, Optional, Set, Tuple
 
 import networkx as nx
 
-from ..cfg import CFG, ENTRY, EXIT, RAISE, reaching_defs
+from ..cfg import eval3, CFG, ENTRY, EXIT, RAISE, reaching_defs
 from ..common import calls_named, dotted, kw, loc, norm, stmt_of
 from ..model import AnalysisError, ClassInfo, FunctionInfo, own_nodes
 from .util import anchor_func, assigned_name, build_cfg, facts, switch_assumptions
@@ -358,11 +358,13 @@ def r14_3(run):
         if acc_cast:
             run.ob("R14.3", loc(fi, s), fi.short, f"dtype of `{norm(s)[:40]}`", True, f"explicit .astype({var}.dtype) on the accumulated sum")
         elif isinstance(s, ast.Assign):
+            def _dt(e):  # a tensor's dtype is its array's dtype
+                return norm(e).replace(".data.dtype", ".dtype")
             tests = [n for n, st in cfg.stmt.items() if cfg.label[n] == "If" and isinstance(st, ast.Compare)
-                     and isinstance(st.ops[0], ast.NotEq) and {norm(st.left), norm(st.comparators[0])} == {f"{g}.dtype", f"{var}.dtype"}]
+                     and isinstance(st.ops[0], ast.NotEq) and {_dt(st.left), _dt(st.comparators[0])} == {f"{g}.dtype", f"{var}.dtype"}]
             casts = [n for n, st in cfg.stmt.items() if isinstance(st, ast.Assign) and assigned_name(st) == g
                      and isinstance(st.value, ast.Call) and isinstance(st.value.func, ast.Attribute) and st.value.func.attr == "astype"
-                     and st.value.args and norm(st.value.args[0]) == f"{var}.dtype"]
+                     and st.value.args and _dt(st.value.args[0]) == f"{var}.dtype"]
             h = cfg.g.copy()
             h.remove_nodes_from(casts)
             for t in tests:
@@ -399,11 +401,19 @@ def r14_3(run):
     nd0 = [n for n, st in cfgp.stmt.items() if cfgp.label[n] == "If" and "ndim == 0" in norm(st)]
     red = [n for n, st in cfgp.stmt.items() if isinstance(st, ast.Assign) and isinstance(st.value, ast.Call)
            and (dotted(st.value.func) or "").endswith("reduce_broadcast")]
+    if not nd0:
+        # the normalisation may live in the reduction helper (behind an option the caller switches on): judge the two functions as one body
+        from ..inline import force_inline
+        pp2 = force_inline(run.project, pp, {"reduce_broadcast"})
+        cfgp = build_cfg(run, pp2, {"NP_IS_V2": True})
+        nd0 = [n for n, st in cfgp.stmt.items() if cfgp.label[n] == "If" and "ndim == 0" in norm(st) and eval3(st, {"NP_IS_V2": True}) is not False]
+        red = [n for n, st in cfgp.stmt.items() if isinstance(st, ast.Assign) and isinstance(st.value, ast.Call)
+               and isinstance(st.value.func, ast.Attribute) and st.value.func.attr == "sum"]
     ok = False
     for t in nd0:
         for c in [n for n, st in cfgp.stmt.items() if isinstance(st, ast.Assign) and isinstance(st.value, ast.Call)
                   and (dotted(st.value.func) or "") in ("np.asarray", "np.array")]:
-            if cfgp.edge_dominates(t, "true", c) and any(cfgp.dominates(r, t) for r in red):
+            if cfgp.edge_dominates(t, "true", c) and red and all(cfgp.all_paths_hit(r, {t}, exits=(EXIT,)) is None for r in red):
                 ok = True
     run.ob("R14.4", loc(pp, pp.node), pp.short, "0-d results of the broadcast reduction are normalised to arrays", ok,
            "`if out.ndim == 0: out = np.asarray(out)` after reduce_broadcast" if ok else "sum-reduction to a scalar leaks a NumPy scalar")
